@@ -468,7 +468,30 @@ func fileScenario(idx int, rng *rand.Rand, dir string) {
 	nsteps := 2 + rng.Intn(4)
 	for s := 0; s < nsteps; s++ {
 		drain()
-		switch k := rng.Intn(10); {
+		switch k := rng.Intn(11); {
+		case k == 10:
+			// log-rotation style replacement: the watched file is renamed away and a completely written new file is
+			// moved into place (no later write to it); the datasource must end up with the new file's rules
+			p, w := mkPayload()
+			desc = append(desc, "rotate:"+p)
+			os.Rename(path, path+".old")
+			time.Sleep(time.Duration(rng.Intn(300)) * time.Millisecond)
+			os.WriteFile(path+".new", []byte(p), 0o644)
+			os.Rename(path+".new", path)
+			want = w
+			ok := waitFor(func() bool { return eqSets(m.state(), want) }) || waitFor(func() bool { return eqSets(m.state(), want) })
+			evs := drain()
+			ctl.Add(path)
+			if !ok {
+				if evs == 0 {
+					run.Inconclusive("file scenario: control watcher saw no event for step rotate")
+				} else {
+					run.Violation("C18/file/not-converged:rotate", fmt.Sprintf("the watched file was renamed away and a new file moved into place: after 10 s the rules in force are %v, the new file describes %v (control watcher saw %d events)", m.state(), want, evs), desc)
+				}
+				return
+			}
+			run.Count("file_steps_converged", 1)
+			run.Count("file_rotations", 1)
 		case k < 5:
 			p, w := mkPayload()
 			desc = append(desc, "write:"+p)
@@ -523,11 +546,13 @@ func fileScenario(idx int, rng *rand.Rand, dir string) {
 
 func main() {
 	sx.Quiet()
-	vclock.New(1900000000000)
+	if os.Getenv("VERIF_MODE") != "file" {
+		vclock.New(1900000000000) // (the file engine runs on real time: the datasource's retry loop really sleeps)
+	}
 	if os.Getenv("VERIF_MODE") == "file" {
 		run = vk.Start("C18", "file")
 		defer run.Finish()
-		run.Rule("scenario = a refreshable file datasource (isolation parser) on a scratch file: initial content, then 2-5 of write / truncate-then-write / write-undecodable, ended by rename-away or remove; after each event the module state must converge (polled up to 5 s) to the valid rules of the file's current content, or be empty once the file is gone; a control fsnotify watcher owned by the monitor must have seen the event, else the step is inconclusive. distinct = distinct scenarios.")
+		run.Rule("scenario = a refreshable file datasource (isolation parser) on a scratch file: initial content, then 2-5 of write / truncate-then-write / write-undecodable / rotate (renamed away, a complete new file moved into place), ended by rename-away or remove; after each event the module state must converge (polled up to 5 s) to the valid rules of the file's current content, or be empty once the file is gone; a control fsnotify watcher owned by the monitor must have seen the event, else the step is inconclusive. distinct = distinct scenarios.")
 		run.Assume("inotify works in the sandbox (control watcher)", "wall-clock polling bound 5 s per step, only counted when the control watcher saw the event")
 		dir := os.Getenv("VERIF_SCRATCH_DIR")
 		if dir == "" {
